@@ -72,7 +72,7 @@ def is_global_phase_of_identity(W, atol=1e-8):
     W = np.asarray(W, dtype=complex)
     d = W.shape[0]
     ph = W[0, 0]
-    return abs(abs(ph) - 1) < atol and np.allclose(W, ph * np.eye(d), atol=atol)
+    return abs(abs(ph) - 1) < atol and np.allclose(W, ph * np.eye(d), atol=atol, rtol=0)
 
 
 def to_np(M):
@@ -86,3 +86,9 @@ def maxdiff(A, B):
     if A.shape != B.shape:
         return float("inf")
     return float(np.max(np.abs(A - B))) if A.size else 0.0
+
+
+def allclose(a, b, atol=1e-8, rtol=1e-11, **kw):
+    """numpy's allclose with its default RELATIVE tolerance of 1e-5 switched off (an error of 1e-7 on an O(1) entry is an error); the small rtol only absorbs
+    floating-point rounding of large entries"""
+    return bool(np.allclose(a, b, atol=atol, rtol=rtol, **kw))
